@@ -175,7 +175,7 @@ Proof.
   assert (Hroot1 : s_root st1 = []) by (unfold st1; rewrite wr_np_root; exact Hroot).
   set (st2 := wr st1 (EdgePts r str_root [tpt (f_now fr); ntpt (f_now fr) str_device])).
   destruct (wr_root_edge st1 r (f_now fr) str_device Hok1 Hnil1 R2 ltac:(discriminate)) as [Hr2 Hf2]. fold st2 in Hr2, Hf2.
-  assert (Hok2 : okst st2) by (apply okst_wr; [exact Hok1|split; [discriminate|exact R3]]).
+  assert (Hok2 : okst st2) by (apply okst_wr; [exact Hok1|discriminate]).
   set (st3 := wr st2 (NodePts (f_admin fr) [mkPoint [101;109;97;105;108] [] (f_now fr) 0 [97] [] 0%Z []])).
   assert (Hok3 : okst st3) by (apply okst_wr; [exact Hok2|exact I]).
   assert (Hf3 : found st3 r) by (apply wr_np_found; exact Hf2).
@@ -269,7 +269,7 @@ Proof.
   assert (Hroot1 : s_root st1 = []) by (unfold st1; rewrite wr_np_root; exact Hroot).
   set (st2 := wr st1 (EdgePts r str_root [tpt (f_now fr); ntpt (f_now fr) str_device])).
   destruct (wr_root_edge st1 r (f_now fr) str_device Hok1 Hnil1 R2 ltac:(discriminate)) as [Hr2 Hf2]. fold st2 in Hr2, Hf2.
-  assert (Hok2 : okst st2) by (apply okst_wr; [exact Hok1|split; [discriminate|exact R3]]).
+  assert (Hok2 : okst st2) by (apply okst_wr; [exact Hok1|discriminate]).
   set (st3 := wr st2 (NodePts (f_admin fr) [mkPoint [101;109;97;105;108] [] (f_now fr) 0 [97] [] 0%Z []])).
   assert (Hok3 : okst st3) by (apply okst_wr; [exact Hok2|exact I]).
   assert (Hf3 : found st3 r) by (apply wr_np_found; exact Hf2).
